@@ -4,6 +4,7 @@ import vlib
 
 MODULE = "ExecManager"
 TIMEOUT_MS = 100
+LATE_RESPONSE_OK = True   # = LateResponseOK of spec/Trace_ExecManager*.cfg (used to describe, not to decide)
 META = {
     "spec": ["ExecManager", "BarterSystem"],
     "technique": "TLC model checking of ExecManager (safety exhaustively, liveness under weak fairness) and of the "
@@ -23,6 +24,12 @@ ASSUMPTIONS = [
     "a response completing exactly at the deadline may be delivered as response or as timeout failure; events due at "
     "the same virtual instant may be delivered in any order (DESIGN 5.4)",
     "one exchange with a single-exchange instrument collection (the per-exchange index maps of other exchanges are C04's subject)",
+    "STALL scenarios: while the manager task is not scheduled (one clock jump over several due instants) events cannot "
+    "appear at their own instants; they must appear at the end of the jump, and which event a request gets is still "
+    "decided by its delay against the timeout: delay < T the response, delay = T either, never the timeout failure",
+    "a response that completed AFTER the deadline while the manager was not scheduled (both instants inside one stall) "
+    "may be delivered as the response or as the timeout failure (LateResponseOK = TRUE in the trace configurations; "
+    "tokio's Timeout polls the response first and delivers it; a timeout bounds the waiting of an unscheduled observer only from below)",
     "after Shutdown / end of the request stream pending requests are dropped unanswered (outside 'while running')",
     "tokio's select! branch order is drawn by tokio itself and cannot be seeded; every recorded outcome is validated",
 ]
@@ -61,8 +68,12 @@ def due(s, T):
 
 def describe(seg, T):
     """Why the last line of `seg` (Reset .. offending line) is not a step of ExecManager."""
-    scripts, answered, running, now = {}, set(), True, 0
+    scripts, answered, running, now, lag = {}, set(), True, 0, {}
     for line in seg[:-1]:
+        if line["a"] == "Stall":
+            for i, s in scripts.items():
+                if running and i not in answered and due(s, T) < line["at"]:
+                    lag.setdefault(i, line["at"])       # passed while the manager was not scheduled
         now = max(now, line["at"])
         if line["a"] == "Accept":
             scripts[line["id"]] = {k: line[k] for k in SCRIPT_FIELDS}
@@ -72,14 +83,17 @@ def describe(seg, T):
             running = False
     line = seg[-1]
     pending = [s for i, s in scripts.items() if i not in answered] if running else []
-    overdue = [s for s in pending if due(s, T) < line["at"] and not (line["a"] == "Emit" and line["id"] == s["id"])]
+    # due (or, after a stall, the end of the stall) strictly before this observation and still unanswered
+    overdue = [s for s in pending if max(due(s, T), lag.get(s["id"], 0)) < line["at"]
+               and not (line["a"] == "Emit" and line["id"] == s["id"])]
     out = []
     if overdue:
         s = overdue[0]
-        out.append(("unanswered:%s:%s" % (s["k"], delay_class(s, T)),
-                    "%s request c%d accepted at %d ms (client: delay %s, %s) was due at %d ms but nothing had been emitted "
+        out.append(("unanswered:%s:%s%s" % (s["k"], delay_class(s, T), ":stalled" if s["id"] in lag else ""),
+                    "%s request c%d accepted at %d ms (client: delay %s, %s) was due at %d ms%s but nothing had been emitted "
                     "for it when the next observation was made at %d ms (%d request(s) overdue)" % (
                         s["k"], s["id"], s["at"], "never" if s["d"] < 0 else "%d ms" % s["d"], s["res"], due(s, T),
+                        " (manager stalled until %d ms)" % lag[s["id"]] if s["id"] in lag else "",
                         line["at"], len(overdue))))
     if line["a"] == "End" and running and [s for s in pending if due(s, T) >= line["at"]]:
         out.append(("tool:end-before-deadline", "harness stopped listening before the last deadline"))
@@ -97,16 +111,20 @@ def describe(seg, T):
         else:
             s = scripts[i]
             dc = delay_class(s, T)
+            stalled = i in lag
             allowed = {"<T": ["resp"], "=T": ["resp", "timeout"], ">T": ["timeout"], "never": ["timeout"]}[dc]
-            pre = "%s request c%d accepted at %d ms, client answers %s after %s (T=%d ms)" % (
-                s["k"], i, s["at"], s["res"], "never" if s["d"] < 0 else "%d ms" % s["d"], T)
+            if dc == ">T" and stalled and LATE_RESPONSE_OK and s["at"] + s["d"] <= line["at"]:
+                allowed = ["resp", "timeout"]
+            pre = "%s request c%d accepted at %d ms, client answers %s after %s (T=%d ms)%s" % (
+                s["k"], i, s["at"], s["res"], "never" if s["d"] < 0 else "%d ms" % s["d"], T,
+                ", manager not scheduled from before its due instant until %d ms" % lag[i] if stalled else "")
             if line["k"] not in allowed:
-                out.append(("emit:%s:%s:kind=%s" % (s["k"], dc, line["k"]),
+                out.append(("emit:%s:%s:kind=%s%s" % (s["k"], dc, line["k"], ":stalled" if stalled else ""),
                             "%s: emitted a %s event (%s/%s) at %d ms, the spec allows only %s" % (
                                 pre, line["k"], line["st"], line["err"], line["at"], " or ".join(allowed))))
             else:
                 when = s["at"] + (s["d"] if line["k"] == "resp" else T)
-                if line["at"] != when:
+                if (line["at"] < when) if stalled else (line["at"] != when):
                     out.append(("emit:%s:%s:%s:%s" % (s["k"], dc, line["k"], "late" if line["at"] > when else "early"),
                                 "%s: the %s event was emitted at %d ms instead of %d ms" % (pre, line["k"], line["at"], when)))
                 exp = expected_event(s, line["k"])
@@ -172,19 +190,22 @@ def validate(ctx, trace_path, scenarios, label, big=False, expect=None):
     return set(bad)
 
 
-def selftest(ctx, trace_path):
+def selftest(ctx, trace_path, stall_trace_path):
     """The binding must bite: corrupt one field / drop / duplicate one line of a recorded (accepted)
     trace and require TLC to reject exactly there."""
-    lines = ctx.read_trace(trace_path)
-    segs, cur = [], []
-    for l in lines:
-        if l["a"] == "Reset" and cur:
-            segs.append(cur)
-            cur = []
-        cur.append(l)
-    segs.append(cur)
+    def segments(path):
+        segs, cur = [], []
+        for l in ctx.read_trace(path):
+            if l["a"] == "Reset" and cur:
+                segs.append(cur)
+                cur = []
+            cur.append(l)
+        segs.append(cur)
+        return segs
 
-    def pick(pred):
+    segs, stall_segs = segments(trace_path), segments(stall_trace_path)
+
+    def pick(pred, segs=segs):
         for s in segs:
             for j, l in enumerate(s):
                 if l["a"] == "Emit" and pred(s, l):
@@ -209,6 +230,15 @@ def selftest(ctx, trace_path):
     cases.append(("timeout failure one millisecond late", late, j))
     s, j = pick(lambda s, l: l["st"] == "FullyFilled")
     cases.append(("fully filled open reported as Open", s[:j] + [dict(s[j], st="Open", fill=s[j]["qty"], oid=s[j]["id"])] + s[j + 1:], j))
+    # the stalled executor: a response that was ready within the timeout, reported as timeout failure
+    after_stall = lambda s, l: any(x["a"] == "Stall" and x["at"] == l["at"] for x in s[:s.index(l)])
+    s, j = pick(lambda s, l: l["k"] == "resp" and script(s, l)["d"] < TIMEOUT_MS and after_stall(s, l)
+                and script(s, l)["at"] + script(s, l)["d"] < l["at"], stall_segs)
+    cases.append(("in-time response observed after a stall reported as timeout failure", s[:j] + [dict(s[j], k="timeout", err="timeout",
+                  st="OpenFailed" if script(s, s[j])["k"] == "open" else "CancelFailed", fill=0, oid=0)] + s[j + 1:], j))
+    s, j = pick(lambda s, l: after_stall(s, l) and (script(s, l)["at"] + min(script(s, l)["d"] % 10**6, TIMEOUT_MS)) < l["at"]
+                and all(x["a"] in ("End", "Shutdown") for x in s[s.index(l) + 1:]), stall_segs)
+    cases.append(("event passed by a stall dropped", s[:j] + s[j + 1:], None))
     p = ctx.path("selftest_corrupted.ndjson")
     expected, base = [], 0
     with open(p, "w") as f:
@@ -283,6 +313,8 @@ def check(ctx):
     ctx.build("c07")
     # the property on the specification: safety exhaustively, liveness under weak fairness
     # (action coverage is taken from the liveness runs - same Next; -coverage slows the big runs down)
+    # quick: 3 requests without stalls (the big run) + 2 requests with Stall, all invariants, Stable and
+    # liveness (the small run, which also supplies the action coverage); thorough: Stall everywhere
     if ctx.quick:
         ctx.tlc_mc(MODULE, "MC_ExecManager.cfg", timeout=900, coverage=False)
         ctx.tlc_mc(MODULE, "MC_ExecManager_live.cfg", timeout=900)
@@ -301,8 +333,13 @@ def check(ctx):
     # spec -> impl -> spec: every generated batch runs on the real manager, its trace is validated
     p_t, scn_t = ctx.tlc_gen("Gen_" + MODULE, "GenT_ExecManager.cfg", "batches.ndjson")
     out_t, _ = run_scenarios(ctx, p_t, scn_t, "batches")
+    # STALL batches: one clock jump over several due instants while the manager is not scheduled
+    p_s, scn_s = ctx.tlc_gen("Gen_" + MODULE, "GenS_ExecManager.cfg", "stalled.ndjson")
+    out_s, info_s = run_scenarios(ctx, p_s, scn_s, "stalled")
+    if info_s.get("requests_due_inside_a_stall", 0) < len(scn_s) // 2:
+        raise vlib.ToolError("stall scenarios passed only %s due instants" % info_s.get("requests_due_inside_a_stall"))
     if not ctx.violations:
-        selftest(ctx, out_t)      # needs an accepted trace to corrupt
+        selftest(ctx, out_t, out_s)      # needs accepted traces to corrupt
     if not ctx.quick:
         p_3, scn_3 = ctx.tlc_gen("Gen_" + MODULE, "GenT_ExecManager_thorough.cfg", "batches3.ndjson", timeout=900)
         run_scenarios(ctx, p_3, scn_3, "batches3")
@@ -310,11 +347,13 @@ def check(ctx):
     p_r, scn_r = ctx.tlc_gen("Gen_" + MODULE, "GenR_ExecManager.cfg", "simulated.ndjson", simulate=(nb, 8), timeout=900)
     run_scenarios(ctx, p_r, scn_r, "simulated")
     ctx.sample({"kind": "TLC batch (exhaustive)", "scenario": scn_t[len(scn_t) // 2]})
+    ctx.sample({"kind": "TLC batch (stalled executor)", "scenario": scn_s[len(scn_s) // 2]})
     ctx.sample({"kind": "TLC batch (simulated, with shutdown)", "scenario": next((s for s in scn_r if s["shut"] >= 0), scn_r[0])})
     # seeded random batches of up to 200 outstanding requests, several seeds / runs (each run is a
     # fresh runtime, so tokio's select! order is re-drawn); the traces are validated in one TLC run
     runs, batches = (5, 6) if ctx.quick else (30, 10)
     ties = {"resp": 0, "timeout": 0}
+    stalled = 0
     all_lines, all_scns = [], []
     for k in range(runs):
         seed = ctx.seed * 1000 + k
@@ -328,6 +367,7 @@ def check(ctx):
         all_scns += ctx.read_trace(scn)
         ties["resp"] += info.get("ties_emitted_as_response", 0)
         ties["timeout"] += info.get("ties_emitted_as_timeout", 0)
+        stalled += info.get("requests_due_inside_a_stall", 0)
         if info.get("max_outstanding", 0) < 100:
             raise vlib.ToolError("random driver reached only %s outstanding requests" % info.get("max_outstanding"))
     out = ctx.path("trace_random.ndjson")
@@ -337,6 +377,9 @@ def check(ctx):
     validate(ctx, out, all_scns, "random", big=True)
     ctx.cov["scenarios_replayed"] += len(all_scns)
     ctx.cov["responses_exactly_at_deadline"] = ties
+    ctx.cov["random_requests_due_inside_a_stall"] = stalled
+    if stalled == 0:
+        raise vlib.ToolError("random driver produced no stalled requests")
     return ctx.finish()
 
 
